@@ -393,9 +393,6 @@ def run(ctx: Ctx):
     shards = [enc[i::48] for i in range(48)]
     pmap(ctx, _work, [(s, n) for s in shards if s])
     ctx.notes["encodable_definitions"] = len(enc)
-    # once more in an interpreter that does not execute assert statements (python -O): refusing a value must not depend on them
-    from ..common import sub_pass
-    sub_pass(ctx, ["-O"], "python-O")
 
 
 def replay(ctx: Ctx, case):
